@@ -12,6 +12,7 @@ import JubakoModel.Lemmas.SetLocation
 import JubakoModel.Lemmas.FuncsCheck
 import JubakoModel.Lemmas.FuncsLookup
 import JubakoModel.Lemmas.FuncsManifest
+import JubakoModel.Lemmas.FuncsOpen
 
 set_option maxRecDepth 8000
 
@@ -113,5 +114,12 @@ theorem c12_manifest_open_is_source_open (f : Bytes)
         | some d => .ok (r.1, r.2.1, d, r.2.2.filter (fun i => !isDir i))
         | none => .panic "") :=
   gen_manifestOpen f hU
+
+/-- **The pack info `set_location` rewrites is parsed as the source parses it**: `PackInfo::parse` translated on
+    every run equals `PackInfo.decode` on every 252-byte block — in particular the location is the p-string at
+    offset 38 of the block and the rest of its 213-byte field is skipped, whatever its length up to 213. -/
+theorem c12_pack_info_parser_is_source_parser (bs : Bytes) (h252 : bs.length = 252) :
+    (Generated.packInfoParse bs).map' (fun r => tupleToInfo r.1) = PackInfo.decode bs :=
+  gen_packInfoParse bs h252
 
 end Jubako
